@@ -107,13 +107,14 @@ impl Monitor for C11 {
             ("injections_class_readdir", tier.pick(1_000, 20_000)),
             ("injections_class_opendir", tier.pick(500, 10_000)),
             ("injections_class_stat", tier.pick(500, 10_000)),
+            ("images_with_a_header_damaged_frame", tier.pick(10, 300)),
             ("injections_short_read_then_error", tier.pick(1_000, 20_000)),
             ("injections_into_non_first_wal_file", tier.pick(2_000, 40_000)),
             ("images_with_3_or_more_files", tier.pick(15, 400)),
         ]
     }
     fn rule(&self) -> String {
-        "case = one WAL image (1..8 files) produced by a generated history; per image the recovery's traced opendir/readdir/open/read/lseek/stat-family calls are counted (every other image is listed with d_type = DT_UNKNOWN, so that the listing has to stat each entry) in a fault-free child, then EVERY n-th call of every class is failed once and from-then-on with each of 10 errnos (EIO, EACCES, ENOENT, ESTALE, EAGAIN, ETIMEDOUT, EBUSY, ENOSPC + two rotating through EISDIR, ENOTDIR, ELOOP, EINVAL, EPERM, EFBIG, EOVERFLOW, ENXIO, ENOMEM, EMFILE) in a fresh forked child (exhaustive per image over injection points); evaluation = one injected recovery; plus a bad-sector model (every read of recovery served short, the read that follows failing); oracle: the child must return Err(IoError) before a logical budget of 10x the fault-free traced calls + 1000; distinct_nontrivial = distinct (image, class, n, errno, mode) injections that hit a call after the first WAL file was opened".into()
+        "case = one WAL image (1..8 files) produced by a generated history; per image the recovery's traced opendir/readdir/open/read/lseek/stat-family calls are counted (every other image is listed with d_type = DT_UNKNOWN, so that the listing has to stat each entry) in a fault-free child, then EVERY n-th call of every class is failed once and from-then-on with each of 10 errnos (EIO, EACCES, ENOENT, ESTALE, EAGAIN, ETIMEDOUT, EBUSY, ENOSPC + two rotating through EISDIR, ENOTDIR, ELOOP, EINVAL, EPERM, EFBIG, EOVERFLOW, ENXIO, ENOMEM, EMFILE) in a fresh forked child (exhaustive per image over injection points); evaluation = one injected recovery; plus a bad-sector model (every read of recovery served short, the read that follows failing); one image in three also carries one frame header with an invalid type byte (so that faults also hit recovery while it is skipping a damaged block); oracle: the child must return Err(IoError) before a logical budget of 10x the fault-free traced calls + 1000; distinct_nontrivial = distinct (image, class, n, errno, mode) injections that hit a call after the first WAL file was opened".into()
     }
     fn assumptions(&self) -> Vec<String> {
         vec![
@@ -151,7 +152,22 @@ impl Monitor for C11 {
             acc.inconclusive(format!("unmodelled file-system call: {}", b.unmodelled[0]));
             return;
         }
-        let img = b.cur.clone();
+        let mut img = b.cur.clone();
+        // one image in three carries a structurally damaged frame header (invalid type byte) in a
+        // block that is not the last one holding data: recovery then has a "skip the rest of
+        // this block" state pending while it loads the next block - faults must still surface
+        if case % 3 == 2 {
+            let frames = crate::damage::all_frames(&img);
+            if let Some((lname, lf)) = frames.last().cloned() {
+                let last_block = lf.off / 32768;
+                let candidates: Vec<&(String, crate::layout::Frame)> = frames.iter().filter(|(n, f)| *n != lname || f.off / 32768 != last_block).collect();
+                if !candidates.is_empty() {
+                    let (n, f) = (*rng.pick(&candidates)).clone();
+                    img.files.get_mut(&n).unwrap()[f.off + 6] = 0xEE;
+                    acc.count("images_with_a_header_damaged_frame");
+                }
+            }
+        }
         let nfiles = img.files.len();
         acc.count("images");
         acc.count(&format!("images_with_{}_files", nfiles.min(9)));
